@@ -8,9 +8,11 @@ backend (1e-9) at the same point."""
 
 from __future__ import annotations
 
+import math
 import zlib
 
 import mpmath
+import numpy
 from hypothesis import strategies as st
 from mpmath import mpf
 
@@ -67,6 +69,10 @@ def cells(tier):
                                         "sb": R.sysname(sb) if sb else None, "order": order, "fl": fl})
     # isclose: the symbolic backend answers with an (in)equality of expressions; at numeric points it must decide as the
     # numeric backends do - true for identical stored coordinates (of either sign), false for clearly different ones
+    for d in (2, 3, 4):
+        for sa in R.SYSTEMS[d]:
+            out.append({"id": f"pow|{d}{R.sysname(sa)}", "op": "isclose", "group": "pow", "da": d, "db": d, "sa": R.sysname(sa),
+                        "sb": R.sysname(sa), "order": None, "fl": "gm"[zlib.crc32(("p" + R.sysname(sa)).encode()) % 2] + "g"})
     for d in (2, 3, 4):
         for sa in R.SYSTEMS[d]:
             out.append({"id": f"isclose|{d}{R.sysname(sa)}", "op": "isclose", "group": "isclose", "da": d, "db": d, "sa": R.sysname(sa),
@@ -230,11 +236,70 @@ def _isclose_case(cell, case, ctx):
     ctx.evaluations -= 1
 
 
+def _pow_case(cell, case, ctx):
+    """v ** n, abs(v), numpy.square / sqrt / power of a symbolic vector (the SymPy backend's own ufunc hook) against the float64
+    object backend at points of the regular domain"""
+    import sympy
+
+    d = cell["da"]
+    sa = opcheck.parse_system(cell["sa"])
+    fa = cell["fl"][0] == "m"
+    variant = f"{d}{cell['sa']}"
+
+    def fail(kind, msg, opn):
+        ctx.fail(kind, f"{opn} {variant} [sympy]: {msg}", op=opn, variant=variant, backend="sympy")
+
+    V, syms = _sympy_vec(sa, "a", fa)
+    forms = [(f"v**{n}", (lambda n: lambda v: v**n)(n)) for n in (1, 2, 3, 4, -1, -2, 0.5, 2.5)] + [
+        ("abs(v)", lambda v: abs(v)), ("numpy.square(v)", lambda v: numpy.square(v)), ("numpy.sqrt(v)", lambda v: numpy.sqrt(v)),
+        ("numpy.power(v, 3)", lambda v: numpy.power(v, 3)), ("numpy.cbrt(v)", lambda v: numpy.cbrt(v))]
+    funcs = []
+    for nm, f in forms:
+        try:
+            funcs.append((nm, f, sympy.lambdify(syms, f(V), modules="mpmath")))
+        except Exception as e:  # noqa: BLE001
+            fail("exception", f"building {nm} raised {type(e).__name__}: {e!s:.200}", nm)
+            return
+    for p in case["points"]:
+        a, _ = opcheck.canon(p, d, d)
+        if not R.representable(sa, a) or not (R.rho2(a) > 0) or (d == 4 and not (a[3] > 0 and R.tau2(a) > 0)):
+            ctx.exclude("outside_sympy_domain")
+            continue
+        st_a = [float(x) for x in R.from_cartesian(sa, a)]
+        va = mpbackend.make(sa, tuple(st_a), fa, False)
+        for nm, f, lam in funcs:
+            ctx.evaluation()
+            try:
+                with numpy.errstate(all="ignore"):
+                    want = float(f(va))
+            except Exception:  # noqa: BLE001
+                ctx.exclude("numeric_backend_raises")
+                continue
+            if not math.isfinite(want):
+                ctx.exclude("nonfinite_reference")
+                continue
+            try:
+                got = _real(lam(*[mpf(x) for x in st_a]))
+            except (_Complex, ZeroDivisionError):
+                ctx.exclude("mp_singular")
+                continue
+            except Exception as e:  # noqa: BLE001
+                fail("exception", f"evaluating {nm} raised {type(e).__name__}: {e!s:.200} at stored {st_a}", nm)
+                return
+            if abs(mpf(got) - mpf(want)) > mpf("1e-9") * max(abs(mpf(want)), 1):
+                fail("value", f"{nm} evaluates to {opcheck.fmt(got)} at stored a={st_a}; the object backend gives {want!r}", nm)
+                return
+        ctx.nontrivial(key=[cell["id"], st_a], sample={"stored_a": st_a, "forms": [nm for nm, _, _ in funcs][:4]})
+    ctx.evaluations -= 1
+
+
 def check_case(cell, case, ctx):
     import sympy
 
     if cell.get("group") == "isclose":
         return _isclose_case(cell, case, ctx)
+    if cell.get("group") == "pow":
+        return _pow_case(cell, case, ctx)
     op = OPS[cell["op"]]
     da, db = cell["da"], cell["db"]
     sa = opcheck.parse_system(cell["sa"])
